@@ -35,7 +35,7 @@ from __future__ import annotations
 
 import itertools
 import types
-from collections.abc import Hashable, Iterable, Iterator, MutableSet, Sequence
+from collections.abc import Collection, Hashable, Iterable, Iterator, MutableSet, Sequence
 from collections.abc import Set as AbstractSet
 from typing import Any, TypeVar, cast, get_args, overload
 
@@ -71,6 +71,8 @@ class _AbstractOrderedSet(AbstractSet[T], Sequence[T]):  # noqa: PLW1641
         """
         if isinstance(index, slice):
             raise NotImplementedError("Slicing currently not supported.")
+        if index < 0:
+            index += len(self._items)
         for i, key in enumerate(self._items.keys()):
             if i == index:
                 return key
@@ -186,6 +188,9 @@ class _AbstractOrderedSet(AbstractSet[T], Sequence[T]):  # noqa: PLW1641
         Returns:
             True, if this is a subset of other.
         """
+        if not isinstance(other, Collection):
+            # One-shot iterables must only be consumed once.
+            other = set(other)
         try:
             # Fast check for obvious cases
             if len(self) > len(other):  # type: ignore[arg-type]
@@ -229,8 +234,9 @@ class _AbstractOrderedSet(AbstractSet[T], Sequence[T]):  # noqa: PLW1641
             The symmetric difference.
         """
         cls = self.__class__
-        diff1 = cls(self).difference(other)
-        diff2 = cls(other).difference(self)
+        other_items = cls(other)
+        diff1 = cls(self).difference(other_items)
+        diff2 = other_items.difference(self)
         return diff1.union(diff2)
 
 
@@ -296,6 +302,7 @@ class OrderedSet(_AbstractOrderedSet[T], MutableSet[T]):
         Args:
             other: The other set.
         """
+        other = tuple(other)
         items_to_add = [item for item in other if item not in self]
         items_to_remove = cast("set[T]", set(other))
         self._items = {item: None for item in self._items if item not in items_to_remove}
